@@ -77,7 +77,8 @@ def opt_tokens(o):
     if k == "unique":
         return K("UNIQUE")
     if k == "ref":
-        toks = K("REFERENCES") + dotted(o.get("schema"), o["table"]) + paren(I(o["column"]))
+        pre = (K("CONSTRAINT") + I(o["cname"])) if o.get("cname") else []      # inline named foreign key
+        toks = pre + K("REFERENCES") + dotted(o.get("schema"), o["table"]) + paren(I(o["column"]))
         if o.get("on_delete"):
             toks += K("ON DELETE") + T(o["on_delete"])
         if o.get("on_update"):
@@ -304,7 +305,7 @@ def compare_table(ent, exp, fields=("type", "size", "nullable", "default", "uniq
 
 # --------------------------------------------------------------------------- random generation
 def gen_ref_opt(rng):
-    return {"k": "ref", "schema": rng.choice([None, None, "s1", "Ref_S"]), "table": rng.choice(["other", "Parent", "p2"]),
+    return {"k": "ref", "cname": rng.choice([None, None, None, "fk_inline", "FK_In2"]), "schema": rng.choice([None, None, "s1", "Ref_S"]), "table": rng.choice(["other", "Parent", "p2"]),
             "column": rng.choice(["id", "k", "Code"]), "on_delete": rng.choice(ACTIONS), "on_update": rng.choice(ACTIONS[:3])}
 
 
